@@ -26,10 +26,13 @@ type desc struct {
 	UV     int     `json:"uv,omitempty"`     // cyl: bit0 side, bit1 top, bit2 bottom; cube: 1 = DefaultCubeUVs, 2 = random full set
 	Capped bool    `json:"capped,omitempty"` // hemisphere flag (ignored by the implementation)
 	UVSeed uint64  `json:"uvseed,omitempty"`
+	// round 4: the same solids reached through other entry points
+	Via   string `json:"via,omitempty"`   // "" = constructor | "node" = the generator node wrapping it (Process through nodes.Struct) | "unit" = primitives.UnitCube
+	NilIn bool   `json:"nilin,omitempty"` // node: every input left unconnected (the node's own defaults; judged without the parameters)
 }
 
 func (d desc) key() string {
-	return fmt.Sprintf("%s/%d/%d/%d/%g/%g/%g/%g/%d/%v/%d", d.Fam, d.Rows, d.Cols, d.Sides, d.Radius, d.Height, d.Width, d.Depth, d.UV, d.Capped, d.UVSeed)
+	return fmt.Sprintf("%s/%d/%d/%d/%g/%g/%g/%g/%d/%v/%d/%s/%v", d.Fam, d.Rows, d.Cols, d.Sides, d.Radius, d.Height, d.Width, d.Depth, d.UV, d.Capped, d.UVSeed, d.Via, d.NilIn)
 }
 
 type prim struct {
@@ -65,6 +68,18 @@ func build(d desc) (p prim, class string, msg string) {
 		}
 	}()
 	var m modeling.Mesh
+	switch d.Via {
+	case "node":
+		m = buildNode(d)
+	case "unit":
+		m = primitives.UnitCube()
+	default:
+		m = buildDirect(d)
+	}
+	return extract(m)
+}
+
+func buildDirect(d desc) (m modeling.Mesh) {
 	switch d.Fam {
 	case "sphere":
 		m = primitives.UVSphere(d.Radius, d.Rows, d.Cols)
@@ -97,6 +112,15 @@ func build(d desc) (p prim, class string, msg string) {
 		case 2:
 			c.UVs = &primitives.CubeUVs{Top: stripUV(d.UVSeed, 1), Bottom: stripUV(d.UVSeed, 2), Left: stripUV(d.UVSeed, 3),
 				Right: stripUV(d.UVSeed, 4), Front: stripUV(d.UVSeed, 5), Back: stripUV(d.UVSeed, 6)}
+		case 3:
+			// a partial set: only the faces selected by the bits of UVSeed%63+1 carry UVs (Mesh.Append then has to pad
+			// the other quads' TexCoord data; positions and indices must not notice)
+			c.UVs = &primitives.CubeUVs{}
+			for k, f := range []**primitives.StripUVs{&c.UVs.Top, &c.UVs.Bottom, &c.UVs.Left, &c.UVs.Right, &c.UVs.Front, &c.UVs.Back} {
+				if (d.UVSeed%63+1)>>uint(k)&1 == 1 { // a non-empty subset of the six faces
+					*f = stripUV(d.UVSeed, k+1)
+				}
+			}
 		}
 		if d.Fam == "cubeW" {
 			m = c.Welded()
@@ -106,6 +130,11 @@ func build(d desc) (p prim, class string, msg string) {
 	default:
 		panic(fmt.Errorf("unknown family %q", d.Fam))
 	}
+	return m
+}
+
+func extract(m modeling.Mesh) (p prim, class string, msg string) {
+	class = clsOK
 	if m.Topology() != modeling.TriangleTopology {
 		panic(fmt.Errorf("not a triangle mesh"))
 	}
@@ -133,8 +162,8 @@ func build(d desc) (p prim, class string, msg string) {
 // ---- coincidence classes computed from the positions ----
 
 // classes returns rep[i] = smallest vertex id whose position coincides with vertex i.
-// exact=true: bitwise-equal coordinates (−0 == 0); otherwise within tol (absolute, per coordinate, transitive closure).
-func classes(pos []vector3.Float64, tol float64) []int {
+// tol all zero: equal coordinates (−0 == 0); otherwise within tol[k] along axis k (absolute, transitive closure).
+func classes(pos []vector3.Float64, tol [3]float64) []int {
 	n := len(pos)
 	parent := make([]int, n)
 	for i := range parent {
@@ -172,16 +201,16 @@ func classes(pos []vector3.Float64, tol float64) []int {
 			order = append(order, i)
 		}
 	}
-	if tol > 0 {
+	if tol[0] > 0 || tol[1] > 0 || tol[2] > 0 {
 		sort.Slice(order, func(a, b int) bool { return pos[order[a]].X() < pos[order[b]].X() })
 		for a := 0; a < len(order); a++ {
 			pa := pos[order[a]]
 			for b := a + 1; b < len(order); b++ {
 				pb := pos[order[b]]
-				if pb.X()-pa.X() > tol {
+				if pb.X()-pa.X() > tol[0] {
 					break
 				}
-				if math.Abs(pa.Y()-pb.Y()) <= tol && math.Abs(pa.Z()-pb.Z()) <= tol {
+				if math.Abs(pa.Y()-pb.Y()) <= tol[1] && math.Abs(pa.Z()-pb.Z()) <= tol[2] {
 					union(order[a], order[b])
 				}
 			}
@@ -342,28 +371,5 @@ func geomOracle(d desc, p prim) string {
 	if an := analyticVolume(d); got > an*(1+1e-12) {
 		return fmt.Sprintf("volume %.17g exceeds the analytic volume %.17g", got, an)
 	}
-	c := interiorPoint(d)
-	L := sizeScale(d)
-	for t := 0; t+2 < len(p.Idx); t += 3 {
-		a, b, cc := p.Pos[p.Idx[t]], p.Pos[p.Idx[t+1]], p.Pos[p.Idx[t+2]]
-		n := b.Sub(a).Cross(cc.Sub(a))
-		nl := n.Length()
-		if !(nl > 0) {
-			return fmt.Sprintf("face %d has zero area", t/3)
-		}
-		cen := a.Add(b).Add(cc).Scale(1.0 / 3.0)
-		// distance of the interior point below the face plane, relative to the size: strictly positive
-		if h := n.Dot(cen.Sub(c)) / nl; !(h > 1e-12*L) {
-			return fmt.Sprintf("face %d (%d,%d,%d) does not face away from the interior point (height %g)", t/3, p.Idx[t], p.Idx[t+1], p.Idx[t+2], h)
-		}
-		if p.Nrm != nil && d.Fam != "hemi" {
-			for k := 0; k < 3; k++ {
-				vn := p.Nrm[p.Idx[t+k]]
-				if dot := vn.Dot(n) / nl; !(dot > 1e-9) {
-					return fmt.Sprintf("vertex normal %d (%g,%g,%g) is not on the outer side of incident face %d (dot %g)", p.Idx[t+k], vn.X(), vn.Y(), vn.Z(), t/3, dot)
-				}
-			}
-		}
-	}
-	return ""
+	return facesOracle(d, p, interiorPoint(d), sizeScale(d))
 }
